@@ -103,8 +103,9 @@ CLAIMS = {
              "reviewed budget); no unchecked u8/u16 arithmetic on lengths; fixed-size encoders check = write = return; "
              "on every Ok(n) path of every attribute-value encoder the written ranges cover [0, n) (must-write coverage, linear "
              "chaining) and no whole-slice write of unknown extent exists, so the value bytes do not depend on previous buffer "
-             "contents and nothing past the value is written by the value encoders. Byte correctness of fitting messages is NOT "
-             "decided.",
+             "contents and nothing past the value is written by the value encoders; the encode loop is safe by induction (R14.6) and "
+             "the header length field is only ever written with the value u16::try_from accepted, which includes the padding "
+             "(R14.7: oversized messages are rejected, not wrapped). Byte correctness of fitting messages is NOT decided.",
         design="DESIGN.md section 5 C14"),
     "C15": dict(
         technique="expression-tree extraction of RttCalcuator::update/reset by abstract interpretation, compared structurally with RFC 6298; path rules for Karn's rule and the 600 s guard",
